@@ -334,7 +334,20 @@ func runErrRule(c *Ctx, rule string, inScope func(*ssa.Function) bool, isSource 
 				sources++
 			}
 		})
-		for _, s := range ErrSites(fn) {
+		all := ErrSites(fn)
+		for _, nr := range NilReturnSites(fn) {
+			var call ssa.CallInstruction
+			switch x := nr.Failed.(type) {
+			case *ssa.Call:
+				call = x
+			case *ssa.Extract:
+				call, _ = x.Tuple.(*ssa.Call)
+			}
+			if call != nil {
+				all = append(all, ErrSite{Fn: fn, Call: call, Callee: calleeName(call), Kind: "nilreturn"})
+			}
+		}
+		for _, s := range all {
 			if !isSource(s) {
 				continue
 			}
@@ -344,7 +357,11 @@ func runErrRule(c *Ctx, rule string, inScope func(*ssa.Function) bool, isSource 
 				c.Pass(rule, s.Key(), s.Call.Pos(), "excepted: %s", x.Reason)
 				continue
 			}
-			c.Fail(rule, s.Key(), s.Call.Pos(), "error returned by %s is %s in %s: the failure cannot reach the caller", s.Callee, s.Kind, FuncKey(s.Fn))
+			what := "is " + s.Kind
+			if s.Kind == "nilreturn" {
+				what = "is tested, but on its failure path the function returns another error variable that is known to be nil there"
+			}
+			c.Fail(rule, s.Key(), s.Call.Pos(), "error returned by %s %s in %s: the failure cannot reach the caller", s.Callee, what, FuncKey(s.Fn))
 		}
 	}
 	c.Stats[rule+".error_sources_examined"] = sources
@@ -427,4 +444,119 @@ func overwrittenInLoop(v ssa.Value) bool {
 		}
 	}
 	return false
+}
+
+// NilReturnSites: returns, on a path where some error e1 is known to be
+// non-nil, of a *different* error value e2 that is known to be nil there
+// (the return is dominated by the nil edge of e2's own test). The failure e1
+// is then reported to the caller as success.
+type nilReturnSite struct {
+	Fn     *ssa.Function
+	Ret    *ssa.Return
+	Failed ssa.Value // e1
+	NilErr ssa.Value // e2
+}
+
+func nilEdgeBlocks(v ssa.Value) (nilEdges, nonNilEdges []*ssa.BasicBlock) {
+	refs := v.Referrers()
+	if refs == nil {
+		return
+	}
+	for _, r := range *refs {
+		b, ok := r.(*ssa.BinOp)
+		if !ok || (b.Op != token.NEQ && b.Op != token.EQL) || !(isNilConst(b.X) || isNilConst(b.Y)) {
+			continue
+		}
+		for _, br := range realReferrers(b) {
+			ifi, ok := br.(*ssa.If)
+			if !ok {
+				continue
+			}
+			nonNil, isNil := ifi.Block().Succs[0], ifi.Block().Succs[1]
+			if b.Op == token.EQL {
+				nonNil, isNil = isNil, nonNil
+			}
+			// an edge is usable only when its target has this single predecessor
+			if len(isNil.Preds) == 1 {
+				nilEdges = append(nilEdges, isNil)
+			}
+			if len(nonNil.Preds) == 1 {
+				nonNilEdges = append(nonNilEdges, nonNil)
+			}
+		}
+	}
+	return
+}
+
+func NilReturnSites(fn *ssa.Function) []nilReturnSite {
+	var out []nilReturnSite
+	ei := errResultIndex(fn.Signature)
+	if ei < 0 {
+		return nil
+	}
+	// error values of the function: call results of type error
+	var errVals []ssa.Value
+	for _, b := range fn.Blocks {
+		for _, ins := range b.Instrs {
+			if v, ok := ins.(ssa.Value); ok && isErrorType(v.Type()) {
+				switch ins.(type) {
+				case *ssa.Call, *ssa.Extract:
+					errVals = append(errVals, v)
+				}
+			}
+		}
+	}
+	for _, r := range returnsOf(fn) {
+		rv, rec := retResult(r, ei)
+		if rec || rv == nil {
+			continue
+		}
+		// a literal nil returned on the failure path of e1
+		if isNilConst(rv) {
+			for _, e1 := range errVals {
+				_, nonNil := nilEdgeBlocks(e1)
+				for _, e := range nonNil {
+					// only the blatant form: the failure edge leads straight
+					// to the return, with no further test in between (a
+					// nested `if err == io.EOF` or a fallback is a decision)
+					if e == r.Block() {
+						out = append(out, nilReturnSite{fn, r, e1, rv})
+					}
+				}
+			}
+			continue
+		}
+		// e2: the returned value itself must be a plain error value (no phi)
+		isErrVal := false
+		for _, e := range errVals {
+			if e == rv {
+				isErrVal = true
+			}
+		}
+		if !isErrVal {
+			continue
+		}
+		nilE, _ := nilEdgeBlocks(rv)
+		knownNil := false
+		for _, e := range nilE {
+			if e.Dominates(r.Block()) {
+				knownNil = true
+			}
+		}
+		if !knownNil {
+			continue
+		}
+		for _, e1 := range errVals {
+			if e1 == rv {
+				continue
+			}
+			_, nonNil := nilEdgeBlocks(e1)
+			for _, e := range nonNil {
+				if e.Dominates(r.Block()) {
+					out = append(out, nilReturnSite{fn, r, e1, rv})
+				}
+			}
+		}
+	}
+	return out
 }
